@@ -125,8 +125,12 @@ Section Spec.
     forall a, exists x y, crun C a l = Ret ([], x) /\ crun C a r = Ret ([], y) /\ x = y.
   Definition C19_embed_stmt : Prop :=
     Forall (fun nm => exists l r, lookup (nm ++ "_lhs") index_C19 = Some l /\ lookup (nm ++ "_rhs") index_C19 = Some r /\ agree l r)
-      [ "embed23r"; "embed34r"; "embed24r"; "embed34r_point"; "embed23r_point";
-        "embed23c"; "embed34c"; "embed24c"; "embed34c_point"; "embed23c_point" ].
+      [ "embed23r"; "embed34r"; "embed24r"; "embed34r_point"; "embed23r_point"; "embed24r_point";
+        "embed23c"; "embed34c"; "embed24c"; "embed34c_point"; "embed23c_point"; "embed24c_point";
+        (* growing directly = growing through the intermediate size; the grown matrix acts block-wise on ANY vector
+           (the smaller product on the leading components, the identity on the others) *)
+        "grow24r"; "grow24c"; "embed24r_general"; "embed24c_general"; "embed34r_general"; "embed34c_general";
+        "embed23r_general"; "embed23c_general" ].
 End Spec.
 
 (** ** machine-integer colour components of every width: within the component range [0, full]
